@@ -124,3 +124,24 @@ add('C09',
     assumptions=['std::map<uint64_t,(address,version)> is the reference; values carry (key, version) so a find identifies the insertion it observed'],
     )
 C16_JOBS.append(job('radix', 'c09_radix.cpp', args=['--arg', 'prop=C16'], shards={'quick': 4, 'thorough': 8}, hang_is_violation=True))
+
+# ---------------------------------------------------------------------------------------------- C01-C04 slab pool (single-threaded)
+SLAB_ASSUME = ['the ShadowPolicy is the only source of memory; mappings come from mmap at page-aligned, deliberately not superblock-aligned bases',
+               'size classes follow the documented arithmetic (8,16,32,64, then doubling): requests above the largest class are large blocks',
+               'poison state is forwarded to AddressSanitizer (8-byte granules); the byte-accurate shadow covers the state part']
+for _p, _txt in (('C01', 'every returned block checked against mapping registry, live-interval map, frame-header range, alignment and stable get_size'),
+                 ('C02', 'per-block patterns verified at release/realloc/quiescent points, realloc/free semantics, per-class footprint bound maps<=ceil(peak/per_slab) after every operation'),
+                 ('C03', 'map/unmap pairing, numUsedPages() deltas per mapping, poison shadow after every call, pool accesses to poisoned bytes reported by ASan')):
+    add(_p, level='exploration',
+        rule='seeded allocate/free/deallocate/realloc histories on 13 policy configurations (aligned/unaligned map, 5 geometries, poison on/off, 3 mutex types) + all sequences of length 6 on nearly-full tiny slabs: ' + _txt,
+        jobs=[job('slab', 'c01_slab.cpp', args=['--arg', 'prop=' + _p], shards={'quick': 12, 'thorough': 16}, hang_is_violation=True)],
+        min_evaluations={'quick': 10000, 'thorough': 100000},
+        min_counters={'allocations': 100000, 'frees': 50000, 'reallocs_moved': 1000, 'reallocs_in_place': 1000, 'large_allocations': 1000, 'policy_unmap_calls': 1000, 'exhaustive_histories': 5000},
+        assumptions=SLAB_ASSUME)
+add('C04', level='fault_enumeration',
+    rule='fixed seeded histories re-run with the i-th Policy::map attempt failing, for every i (thorough: every pair i<j<=i+12 and bursts of three), on 4 (6) configurations; all C01-C03 oracles stay armed, no pool mutex may remain held, later requests must succeed',
+    jobs=[job('slabfault', 'c01_slab.cpp', args=['--arg', 'prop=C04'], shards={'quick': 12, 'thorough': 16}, hang_is_violation=True)],
+    min_evaluations={'quick': 100, 'thorough': 2000},
+    min_counters={'map_failures_injected': 100, 'histories_with_injected_fault': 100, 'fault_site:large-frame': 5, 'fault_site:first-slab-of-class': 5, 'fault_site:additional-slab': 5,
+                  'fault_site:copying-realloc-small-to-small': 1, 'fault_site:copying-realloc-small-to-large': 1, 'fault_site:copying-realloc-large-to-larger': 1},
+    assumptions=SLAB_ASSUME + ['a fault is Policy::map returning 0; the history continues with the failed allocation omitted from the model'])
